@@ -139,6 +139,12 @@ def activate(build_dir, fake_mpi=True):
     for m in list(sys.modules):
         if m == "enspara" or m.startswith("enspara."):
             del sys.modules[m]
+    import logging
+    if not getattr(activate, "_quiet", False):
+        h = logging.StreamHandler()
+        h.setLevel(logging.CRITICAL)      # keep library chatter off the check's output
+        logging.getLogger().addHandler(h)
+        activate._quiet = True
     import enspara  # noqa
     if not os.path.abspath(enspara.__file__).startswith(os.path.abspath(build_dir)):
         raise MachineryError("enspara imported from %s, not from the scratch build" % enspara.__file__)
@@ -231,18 +237,51 @@ def run_tlc(module, cfg, cwd, workers=None, timeout=1800, extra=(), env=None, si
     return res
 
 
+def _balanced(text):
+    """bracket balance of << >> { } [ ] ( ) outside string literals"""
+    depth, i, n = 0, 0, len(text)
+    while i < n:
+        ch = text[i]
+        if ch == '"':
+            i += 1
+            while i < n and text[i] != '"':
+                i += 2 if text[i] == "\\" else 1
+        elif text.startswith("<<", i):
+            depth += 1
+            i += 1
+        elif text.startswith(">>", i):
+            depth -= 1
+            i += 1
+        elif ch in "{[(":
+            depth += 1
+        elif ch in "}])":
+            depth -= 1
+        i += 1
+    return depth
+
+
 def parse_prints(out):
-    """PrintT(<<"TAG", jsonstring>>) lines -> list of (tag, obj).  Lines are
-    of the form  <<"TAG", "....json with \\" escapes...">>  (workers=1) ."""
+    """PrintT(<<"TAG", value>>) output -> list of (tag, obj).  TLC wraps wide
+    values over several lines, so lines are joined until brackets balance.
+    JSON strings produced by ToJson are decoded; other values go through
+    tla_value()."""
     res = []
-    for line in out.splitlines():
-        if not line.startswith('<<"'):
+    lines = out.splitlines()
+    i = 0
+    while i < len(lines):
+        line = lines[i]
+        i += 1
+        if not re.match(r'^<<\s*"', line):
             continue
-        m = re.match(r'^<<"([A-Za-z0-9_]+)", (.*)>>$', line)
+        buf = line
+        while _balanced(buf) > 0 and i < len(lines):
+            buf += " " + lines[i].strip()
+            i += 1
+        m = re.match(r'^<<\s*"([A-Za-z0-9_]+)",\s*(.*)>>\s*$', buf, re.S)
         if not m:
             continue
-        tag, rest = m.group(1), m.group(2)
-        if rest.startswith('"'):
+        tag, rest = m.group(1), m.group(2).strip()
+        if rest.startswith('"') and _is_single_string(rest):
             try:
                 s = json.loads(rest)       # TLA+ string escapes are a subset of JSON's
                 try:
@@ -254,6 +293,13 @@ def parse_prints(out):
         else:
             res.append((tag, tla_value(rest)))
     return res
+
+
+def _is_single_string(rest):
+    i, n = 1, len(rest)
+    while i < n and rest[i] != '"':
+        i += 2 if rest[i] == "\\" else 1
+    return i == n - 1
 
 
 def tla_value(s):
@@ -427,9 +473,13 @@ class Ctx:
                 self.known_hits.setdefault(key, {"what": k["what"], "n": 0, "example": record})
                 self.known_hits[key]["n"] += 1
                 return False
-        if len(self.violations) < 50:
+        nkey = sum(1 for k in self.violations if k == key)
+        if len(self.violations) == 0 and os.path.isdir(self.vdir):
+            shutil.rmtree(self.vdir, ignore_errors=True)
+        if nkey < 3 and len(set(self.violations)) < 40:
             os.makedirs(self.vdir, exist_ok=True)
             path = os.path.join(self.vdir, "%d.json" % len(self.violations))
+            record = dict(record)
             record = dict(record)
             record["property"] = self.pid
             record["key"] = key
@@ -443,6 +493,10 @@ class Ctx:
     def finish(self, level="model_checking"):
         for key, h in self.known_hits.items():
             print("KNOWN-FINDING: property=%s %s [%s; %d case(s)]" % (self.pid, h["what"], key, h["n"]))
+        if self.violations:
+            import collections
+            for k, c in collections.Counter(self.violations).most_common():
+                print("  violation class %-60s x%d" % (k, c))
         ev = {
             "property_id": self.pid,
             "tier": self.tier,
